@@ -45,7 +45,7 @@ def shards(tier):
 
 
 def timeout(tier):
-    return 420 if tier == "quick" else 2400
+    return 900 if tier == "quick" else 5400
 
 
 def diff_kind(d):
